@@ -95,7 +95,7 @@ type plan struct {
 	deadlineQuick, deadlineThor time.Duration
 }
 
-var plans = map[string]plan{"C20": {race: true}, "C01": {racePass: "burst3-cold"}, "C14": {racePass: "reload-vs-lookups"}}
+var plans = map[string]plan{"C20": {race: true}, "C01": {racePass: "burst3-cold"}, "C14": {racePass: "reload-vs-lookups"}, "C11": {racePass: "conc3-hits-same-shard-limit2"}}
 
 func planOf(id string) plan {
 	p, ok := plans[id]
